@@ -11,6 +11,7 @@ import (
 	kproto "github.com/kardiachain/go-kardia/proto/kardiachain/types"
 	"github.com/kardiachain/go-kardia/types"
 
+	"verifharness/c18"
 	"verifharness/core"
 	"verifharness/netsim"
 )
@@ -82,8 +83,21 @@ func e2e(c *core.Case) {
 			if rs.ProposalBlock != nil && rs.ProposalBlockParts != nil {
 				ids[1] = types.BlockID{Hash: rs.ProposalBlock.Hash(), PartsHeader: rs.ProposalBlockParts.Header()}
 			}
-			i1 := r.Intn(3)
-			i2 := (i1 + 1 + r.Intn(2)) % 3
+			// the same block hash under other part-set headers: two ids that differ behind the hash only
+			o1, o2 := ids[1], ids[1]
+			o1.PartsHeader.Total += 1 + uint32(r.Intn(3))
+			o2.PartsHeader.Hash = adv.PickFakeID(3).PartsHeader.Hash
+			ids = append(ids, o1, o2)
+			i1 := r.Intn(len(ids))
+			i2 := (i1 + 1 + r.Intn(len(ids)-1)) % len(ids)
+			if r.Intn(3) == 0 {
+				// both votes for the same hash
+				pair := [][2]int{{1, 3}, {3, 1}, {1, 4}, {4, 1}, {3, 4}, {4, 3}}[r.Intn(6)]
+				i1, i2 = pair[0], pair[1]
+			}
+			if ids[i1].Hash.Equal(ids[i2].Hash) && !ids[i1].IsZero() {
+				run.Count("equivocations_for_one_block_hash_under_two_part_set_headers", 1)
+			}
 			v1 := adv.SignVote(ref, b, typ, hh, round, ids[i1], netsim.ClockNow())
 			v2 := adv.SignVote(ref, b, typ, hh, round, ids[i2], netsim.ClockNow().Add(time.Microsecond))
 			// at least one node sees both votes
@@ -189,6 +203,10 @@ func Main() {
 	r.Assume("evidence gossip is emulated as the evidence reactor does it (pending evidence offered to peers that reached the evidence height)")
 	r.Cases("unit", r.N(16, 400), core.Opts{Procs: 16, StallSec: 300}, unit)
 	r.Cases("e2e", r.N(96, 3000), core.Opts{Procs: 16, StallSec: 300}, e2e)
+	// the real evidence reactor's per-peer send decision against scripted peers (the e2e group emulates evidence gossip)
+	r.Cases("reactor-gossip", r.N(12, 200), core.Opts{Procs: r.N(12, 16), StallSec: 300}, c18.EvidenceGossipCase)
+	r.Floor("evidence_gossip_received_by_peers:conforming-peer-state:ahead", 10)
+	r.Floor("equivocations_for_one_block_hash_under_two_part_set_headers", 10)
 	r.Floor("evidence_committed", 10)
 	r.Floor("unit_accepts", 20)
 	r.Floor("unit_rejects", 100)
